@@ -63,7 +63,7 @@ func runRace(c RaceCase) (vkit.Info, error) {
 	}
 	defer f.cancel()
 	rc := f.rc
-	m := &model{stores: map[uint64]*mstore{}, nextReg: 1}
+	m := &model{stores: map[uint64]*mstore{}, nextReg: 1, residue: map[uint64]bool{}, cached: map[uint64]int{}}
 	for i := 0; i < c.Stores; i++ {
 		id := uint64(i + 1)
 		req := mkReq(id, fmt.Sprintf("addr-%d", id), "2.0.0", nil, 0)
@@ -154,8 +154,7 @@ func placeOne(f *fixture, m *model, store uint64) {
 	meta := &metapb.Region{Id: rid, StartKey: []byte(fmt.Sprintf("k%08d", rid)), EndKey: []byte(fmt.Sprintf("k%08d", rid+1)),
 		RegionEpoch: &metapb.RegionEpoch{Version: 1, ConfVer: 1},
 		Peers:       []*metapb.Peer{{Id: rid + 100000, StoreId: store}}}
-	ri := newRegion(meta)
-	f.bc.PutRegion(ri)
-	m.regions = append(m.regions, &mregion{id: rid, stores: []uint64{store}, info: ri})
+	f.bc.PutRegion(newRegion(meta))
+	m.regions = append(m.regions, &mregion{id: rid, stores: []uint64{store}})
 	f.syncStatus(store)
 }
